@@ -93,6 +93,8 @@ func (u *fetchUnit) coFetch(cycle int, app risc.Application, ctx *risc.Context) 
 func (u *fetchUnit) reset(pc int32, cleanPending bool) {
 	u.coroutine = nil
 	u.pc = pc
+	// The fetch unit may have reached the end of the program on the wrong path
+	u.complete = false
 	u.toCleanPending = cleanPending
 	u.newSequence = true
 }
